@@ -1,8 +1,8 @@
 from plans.common import *
 
 H = "harness/c11_vector.cpp"
-RC = cmd("segment-arith", "harness/c11_seq_rc.cpp", "plain", 1, link_tbb=False, ldflags=["-lrapidcheck"], env={"RC_PARAMS": "seed={seed} max_success=20000 max_size=100"})
-RCI = cmd("iterator-model", "harness/c11_iter_rc.cpp", "plain", 2, link_tbb=True, ldflags=["-lrapidcheck"], env={"RC_PARAMS": "seed={seed} max_success=20000 max_size=100"})
+RC = cmd("segment-arith", "harness/c11_seq_rc.cpp", "plain", 1, link_tbb=False, ldflags=["-lrapidcheck"], env={"RC_PARAMS": "seed={seed} max_success=20000 max_size=100"}, replay_tag="segment-arith")
+RCI = cmd("iterator-model", "harness/c11_iter_rc.cpp", "plain", 2, link_tbb=True, ldflags=["-lrapidcheck"], env={"RC_PARAMS": "seed={seed} max_success=20000 max_size=100"}, replay_tag="iter-")
 PLAN = dict(
     level="exploration",
     rule="case = generated growth program on one concurrent_vector (2-4 threads x 1-6 ops from push_back/emplace_back/grow_by/grow_by(value)/"
